@@ -275,7 +275,9 @@ func init() {
 				UnixSocketConfig:    &plugin.UnixSocketConfig{TempDir: os.Getenv("TMPDIR")},
 			}
 			cl := plugin.NewClient(cfg)
-			x.Data["r"], x.Data["lg"], x.Data["toks"] = r, lg, toks
+			x.Put("r", r)
+			x.Put("lg", lg)
+			x.Put("toks", toks)
 			x.OnCleanup(r.exit)
 			if _, err := cl.Start(); err != nil {
 				x.Fail("ENGINE", "Start: %v", err)
@@ -294,18 +296,18 @@ func init() {
 				}
 			}
 			vs.Point("writers-done")
-			x.Data["wrote"] = got
+			x.Put("wrote", got)
 			cl.Kill() // EOF on the pipes: the last unterminated line is delivered
-			x.Data["exitedAfterKill"] = cl.Exited()
+			x.Put("exitedAfterKill", cl.Exited())
 			fmu.Lock()
-			x.Data["fwd"] = append([]byte(nil), fwd.Bytes()...)
+			x.Put("fwd", append([]byte(nil), fwd.Bytes()...))
 			fmu.Unlock()
-			x.Data["completed"] = true
+			x.Put("completed", true)
 		},
 		Check: func(x *vs.Exec, p explore.Params) {
 			B := atoi(p["B"])
 			desc := fmt.Sprintf("B=%s stderr=[%s] nl=%s stdout=[%s] onl=%s", p["B"], descErr(p["err"]), p["nl"], p["out"], p["onl"])
-			x.Data["nontrivial"] = strings.Contains(p["err"], ",") || strings.Contains(p["out"], ",") || p["err"] != "0"
+			x.Put("nontrivial", strings.Contains(p["err"], ",") || strings.Contains(p["out"], ",") || p["err"] != "0")
 			if x.Data["completed"] != true {
 				if len(x.Violations()) == 0 {
 					x.Fail("L", "scenario never finished (blocked %v) [%s]", x.EndBlocked, desc)
